@@ -433,13 +433,24 @@ def gen_sequence(rng, opts=(True, False)):
                 segs.append(surplus)              # arrives later, before the next request
         exs.append({'segs': segs, 'eof': eof, 'method': m.method, 'version': m.version, 'path': '/p%d' % k,
                     'msg': m, 'surplus': surplus, 'marker': marker})
+    # the body file: a fresh buffer; a file that already holds a prefix and stands at its end
+    # (-O, --save-headers, --continue); or ONE file object for the whole sequence (-O)
+    r = rng.random()
+    for e in exs:
+        if r < 0.25:
+            e['file'] = 'shared'
+        else:
+            e['file'] = 'prefix' if rng.random() < 0.4 else 'fresh'
+            if e['file'] == 'prefix':
+                e['file_prefix'] = bytes(rng.choice(b'PREFIX-abc\r\n: 0') for _ in range(rng.choice([1, 2, 7, 40, 5000])))
     return exs
 
 
 def check_sequence(ctx, exs, results, where='Session', opts=(True, False)):
     case = {'stream': 'session', 'opts': list(opts),
             'exchanges': [{'segs': e['segs'], 'eof': e['eof'], 'method': e['method'], 'version': e['version'],
-                           'path': e['path'], 'msg': e['msg'].case(), 'surplus': e['surplus']} for e in exs]}
+                           'path': e['path'], 'msg': e['msg'].case(), 'surplus': e['surplus'],
+                           'file': e.get('file', 'fresh'), 'file_prefix': e.get('file_prefix', b'')} for e in exs]}
     for k, (e, r) in enumerate(zip(exs, results)):
         m, x = e['msg'], r['x']
         if len(r['requests']) != 1:
@@ -454,6 +465,18 @@ def check_sequence(ctx, exs, results, where='Session', opts=(True, False)):
             ctx.fail(kind, where, case, 'exchange %d ended %s %s (previous exchange sent %d surplus bytes)'
                      % (k, x.outcome, x.exc, len(exs[k - 1]['surplus']) if k else 0))
             return
+        fi = getattr(x, 'fileinfo', None)
+        if fi is not None:
+            # the caller reads the document from where the download leaves the file
+            if fi['pos_after'] != fi['offset']:
+                ctx.fail('file-position-not-restored', 'Session.download', case,
+                         'exchange %d: the body file stood at offset %d before the download and at %d after it (file mode %s): '
+                         'reading from the current position gives %d bytes, the payload has %d'
+                         % (k, fi['offset'], fi['pos_after'], e.get('file', 'fresh'), len(x.body), len(m.payload)))
+                return
+            if fi['data_after'][:fi['offset']] != fi['before'][:fi['offset']]:
+                ctx.fail('file-prefix-damaged', 'Session.download', case, 'exchange %d: what the file held before the download changed' % k)
+                return
         want = m.payload if m.coding is None else H.one_shot_decode(m.coding, m.payload)
         sent = m.message
         if H.relaxed_by_options(m, opts):
@@ -473,6 +496,7 @@ def check_sequence(ctx, exs, results, where='Session', opts=(True, False)):
 def stream_session(ctx, seqs):
     """seqs: list of exchange lists or of (exchange list, (keep_alive, ignore_length))"""
     lines, metas = [], []
+    flines, fmetas = [], []
     for item in seqs:
         exs, opts = item if isinstance(item, tuple) else (item, (True, False))
         opts = tuple(opts)
@@ -487,6 +511,14 @@ def stream_session(ctx, seqs):
                      ','.join(('o' + enc(v)) if k == 'ok' else ('e' + v) for k, v in x.declog) or '~']
         lines.append('http session %s %s ' % ('T' if opts[0] else 'F', 'T' if opts[1] else 'F') + ' '.join(toks))
         metas.append((exs, results, opts))
+        for e, r in zip(exs, results):
+            fi = getattr(r['x'], 'fileinfo', None)
+            if fi is not None and r['x'].outcome == 'ok' and len(fi['before']) + len(r['x'].body) <= 12000:
+                flines.append('http file %s %d %s' % (enc(fi['before']), fi['offset'], enc(fi['data_after'][fi['offset']:])))
+                fmetas.append((e, '%s %d %s' % (enc(fi['data_after']), fi['pos_after'], enc(r['x'].body))))
+    for (e, real), rep in zip(fmetas, ctx.model.ask(flines)):
+        if rep != real:
+            ctx.disagree('file', {'file': e.get('file'), 'prefix': e.get('file_prefix', b'')}, rep[:400], real[:400])
     replies = ctx.model.ask(lines)
     for (exs, results, opts), rep in zip(metas, replies):
         parts = rep.split(' || ') if rep != '~' else []
@@ -499,7 +531,8 @@ def stream_session(ctx, seqs):
             g = H.fmt_exchange_nc(r['x'])
             real_parts.append('%s:%s' % (r['conn'], g))
         ctx.case(('session', tuple((tuple(e['segs']), e['eof'], e['method']) for e in exs), opts),
-                 tags=['session:len=%d' % len(exs), 'session:opts=%s%s' % ('ka' if opts[0] else 'noka', '+il' if opts[1] else '')]
+                 tags=['session:len=%d' % len(exs), 'session:opts=%s%s' % ('ka' if opts[0] else 'noka', '+il' if opts[1] else ''),
+                       'session:file=' + '/'.join(sorted({e.get('file', 'fresh') for e in exs}))]
                  + (['session:surplus'] if any(e['surplus'] for e in exs) else []))
         if len(parts) != len(results) or real_parts != model_parts:
             ctx.disagree('session', {'opts': list(opts),
@@ -808,6 +841,24 @@ def coded_truncation_items():
     return items
 
 
+def fixed_file_sequences():
+    """the same three exchanges with every body-file mode: fresh buffers, files that already hold
+    a prefix (1 byte ... a saved header block), and one growing file for all of them (-O)"""
+    out = []
+    msgs = [(b'HTTP/1.1 200 OK\r\nContent-Length: 5\r\n\r\n', b'first', b'first', 'length'),
+            (b'HTTP/1.1 200 OK\r\nTransfer-Encoding: chunked\r\n\r\n', b'6\r\nsecond\r\n0\r\n\r\n', b'second', 'chunked'),
+            (b'HTTP/1.1 200 OK\r\nContent-Length: 0\r\n\r\n', b'', b'', 'length'),
+            (b'HTTP/1.1 200 OK\r\nContent-Length: 5\r\n\r\n', b'third', b'third', 'length')]
+    for mode, prefix in (('fresh', b''), ('prefix', b'X'), ('prefix', b'HTTP/1.1 200 OK\r\nContent-Length: 5\r\n\r\n'), ('shared', b'')):
+        exs = []
+        for k, (head, framed, payload, framing) in enumerate(msgs):
+            m = _mk(head, framed, payload, framing=framing)
+            exs.append({'segs': fakenet.segment(m.message, [len(head)] if k % 2 else []), 'eof': False, 'method': 'GET', 'version': 'HTTP/1.1',
+                        'path': '/p%d' % k, 'msg': m, 'surplus': b'', 'marker': b'', 'file': mode, 'file_prefix': prefix})
+        out.append(exs)
+    return out
+
+
 def fixed_messages():
     """Hand-written messages at the decision points of the framing rules."""
     mk = _mk
@@ -924,7 +975,7 @@ def _run(ctx, pid='C08'):
     # lock-step sequences on the real client
     srng = ctx.subrng('session')
     nseq = ctx.scale(120, 800)
-    seqs = [(exs, (True, False)) for exs in fixed_sequences()]
+    seqs = [(exs, (True, False)) for exs in fixed_sequences() + fixed_file_sequences()]
     for i in range(nseq):
         opts = H.OPTS[1 + (i // 2) % 3] if i % 2 else (True, False)      # half default, the rest spread over the other three
         seqs.append((gen_sequence(srng, opts), opts))
